@@ -1265,3 +1265,94 @@ def membership_in_mapping(ctx: Ctx, modules: tuple[str, ...] = ("cirkit",)) -> l
                 n_dec -= 1  # the derived type is neither: the inference is too coarse here, no statement
     out.append(ok("R14t", "cirkit", "decided-memberships", f"{n_dec} membership test(s) in annotated mappings with a derivable left type", "", nontrivial=False))
     return out
+
+
+# ------------------------------------------------------------------------------------------ R14u
+def merged_node_lists_unique(ctx: Ctx, classes: tuple[str, ...] = ("cirkit.symbolic.parameters.Parameter", "cirkit.backend.torch.parameters.parameter.TorchParameter")) -> list[Ob]:
+    """R14u -- a graph built by merging several graphs lists each node once.
+
+    The orderings count predecessors per *listed* node and per edge (R14s); a node listed twice in
+    ``nodes`` is visited twice by ``graph_nodes_outgoings`` and doubles the successor entries of its
+    inputs, so their consumers never reach in-degree zero: "The graph has at least one cycle".  The
+    constructors that merge the node lists of *several* operand graphs (``from_nary`` and what calls
+    it) have to de-duplicate the concatenation -- operands may share a sub-graph (``log(q) + q``) or be
+    the same graph twice (``q * q``)."""
+    out: list[Ob] = []
+    for cq in classes:
+        c = ctx.repo.cls(cq)
+        found = False
+        for m in c.methods.values():
+            ld = LocalDefs(m.node)
+            for n in walk_no_nested(m.node):
+                if not (isinstance(n, ast.Call) and (dotted(n.func) or "").split(".")[-1] == "from_iterable"):
+                    continue
+                gens = [g for g in ast.walk(n) if isinstance(g, (ast.GeneratorExp, ast.ListComp)) and isinstance(g.elt, ast.Attribute) and g.elt.attr in ("nodes", "_nodes")]
+                if not gens:
+                    continue
+                found = True
+                # is the concatenation wrapped by a de-duplication on its way to the constructor?
+                par: dict[int, ast.AST] = {}
+                for x in ast.walk(m.node):
+                    for ch in ast.iter_child_nodes(x):
+                        par[id(ch)] = x
+                cur: ast.AST | None = n
+                dedup = None
+                while cur is not None and not isinstance(cur, ast.stmt):
+                    up = par.get(id(cur))
+                    if isinstance(up, ast.Call):
+                        nm = (dotted(up.func) or "")
+                        if nm in ("dict.fromkeys", "OrderedDict.fromkeys", "set", "frozenset", "unique"):
+                            dedup = nm
+                    cur = up
+                loc = f"{m.module.relpath}:{n.lineno}"
+                inst = f"merged-nodes:{m.name}"
+                if dedup in ("set", "frozenset"):
+                    out.append(viol("R14u", m.qualname, inst, f"the merged node list is de-duplicated with {dedup}(..): the order of `nodes` (a topological order the callers rely on) is lost", loc))
+                elif dedup:
+                    out.append(ok("R14u", m.qualname, inst, f"the concatenated node lists are de-duplicated in order ({dedup})", loc))
+                else:
+                    out.append(viol("R14u", m.qualname, inst, f"`{unparse(n)[:70]}` concatenates the node lists of several operand graphs as they are: operands sharing a sub-graph (log(q) + q), or the same operand twice (q * q), list the shared nodes twice and the graph cannot be ordered ('at least one cycle')", loc))
+        if not found:
+            out.append(unres("R14u", cq, "merged-nodes", "no concatenation of operand node lists (chain.from_iterable over `.nodes`) in this class: no verdict", c.loc))
+    return out
+
+
+# ------------------------------------------------------------------------------------------ R14v
+def split_graphs_keep_sharing(ctx: Ctx, modules: tuple[str, ...] = ("cirkit.backend.torch.optimization",)) -> list[Ob]:
+    """R14v -- an optimisation that splits one parameter graph over several layers keeps shared
+    leaves shared.
+
+    Sharing between *layers* is expressed by pointer nodes: every layer's parameter graph is folded
+    on its own, and a tensor node that sits in two graphs is folded -- allocated -- twice.  A rewrite
+    that takes two or more ``.subgraph(..)`` of the *same* parameter graph and gives them to
+    different layers therefore has to account for nodes the sub-graphs have in common (replace them
+    by pointers in all but one, or refuse when the node sets intersect); otherwise a weight with a
+    tied factor (``A (x) A`` built on one tensor node) compiles, under fold + optimize, to two
+    independent tensors."""
+    out: list[Ob] = []
+    n_fn = 0
+    for f in ctx.repo.iter_functions():
+        if not f.module.name.startswith(modules):
+            continue
+        subs: dict[str, list[ast.Call]] = {}
+        for n in walk_no_nested(f.node):
+            if isinstance(n, ast.Call) and isinstance(n.func, ast.Attribute) and n.func.attr == "subgraph" and isinstance(n.func.value, ast.Name):
+                subs.setdefault(n.func.value.id, []).append(n)
+        for g, calls in subs.items():
+            if len(calls) < 2:
+                continue
+            n_fn += 1
+            loc = f"{f.module.relpath}:{calls[0].lineno}"
+            handles = any(
+                (isinstance(x, ast.Name) and x.id == "TorchPointerParameter")
+                or (isinstance(x, ast.Call) and isinstance(x.func, ast.Attribute) and x.func.attr in ("isdisjoint", "intersection") and "nodes" in unparse(x))
+                or (isinstance(x, ast.BinOp) and isinstance(x.op, ast.BitAnd) and "nodes" in unparse(x))
+                for x in ast.walk(f.node)
+            )
+            inst = f"split:{g}"
+            if handles:
+                out.append(ok("R14v", f.qualname, inst, "the rewrite looks at the nodes the sub-graphs share (pointer / intersection)", loc))
+            else:
+                out.append(viol("R14v", f.qualname, inst, f"{len(calls)} sub-graphs of `{g}` become the parameters of different layers and nothing accounts for nodes they share: a tied factor (both Kronecker operands on one tensor node) is allocated once per layer when the layers are folded, so fold=True, optimize=True computes A1 (x) A2 with two independent tensors", loc))
+    out.append(ok("R14v", "cirkit.backend.torch.optimization", "graph-splits", f"{n_fn} rewrite(s) splitting one parameter graph over several layers", "", nontrivial=False))
+    return out
